@@ -131,12 +131,119 @@ def _expected_cols(kind, req):
     return ['pos', 'vel'] if rvlike else ['pid']
 
 
+DS_MAX = 20000
+DS_STEP = 2500
+DS_THREADS = (1, 2, 3, 4, 8, 16)
+
+
+def sweep(tier):
+    """(record count, thread count) sweep of the compiled decoders read_asdf hands the raw column to: every record
+    count 0..DS_MAX and seeded samples up to 300000, for each numba thread count -- a decoder that splits its input
+    between threads or blocks misplaces rows only for particular (count, threads) pairs."""
+    top = DS_MAX * (3 if tier == 'thorough' else 1)
+    for kern in ('rvint', 'pids', 'pack9'):
+        for T in DS_THREADS:
+            for lo in range(0, top, DS_STEP):
+                yield {'dsweep': {'kernel': kern, 'T': T, 'lo': lo, 'hi': lo + DS_STEP, 'extra': 0}}
+            yield {'dsweep': {'kernel': kern, 'T': T, 'lo': 0, 'hi': 0, 'extra': 150 if tier == 'thorough' else 40}}
+
+
+def _decoder_sweep(case, out):
+    import random
+    import numba
+    from e2_world import world as W
+    from instr import rt
+    from abacusnbody.data import bitpacked, pack9
+    d = case['dsweep']
+    kern, T = d['kernel'], d['T']
+    rr = random.Random(1000 * d['lo'] + T)
+    sizes = list(range(d['lo'], d['hi'])) + sorted(rr.randrange(DS_MAX, 300000) for _ in range(d['extra']))
+    if not sizes:
+        return out
+    nmax = max(sizes) + 1
+    g = np.random.default_rng(16)
+    box, vz, ppd = 500.0, 777.0, 64
+    site = {'rvint': 'bitpacked.unpack_rvint', 'pids': 'bitpacked.unpack_pids', 'pack9': 'pack9.unpack_pack9'}[kern] + '[compiled]'
+    if kern == 'rvint':
+        raw = g.integers(-2 ** 31, 2 ** 31 - 1, (nmax, 3), dtype=np.int64).astype(np.int32)
+        tp, tv = W.decode_rvint(raw, box)
+
+        def call(n):
+            p, v = bitpacked.unpack_rvint(raw[:n], box)
+            return {'pos': p, 'vel': v}, n
+    elif kern == 'pids':
+        raw = g.integers(0, 2 ** 63 - 1, nmax, dtype=np.int64).astype(np.uint64)
+
+        def call(n):
+            r = bitpacked.unpack_pids(raw[:n], box=box, ppd=ppd, pid=True, lagr_pos=True, tagged=True, density=True, lagr_idx=True)
+            return dict(r), n
+    else:
+        recs = [['H', 15, 500, [1, 2, 3]]]
+        for i in range(nmax):
+            if g.random() < 0.01:
+                recs.append(['H', 15, int(g.integers(100, 1800)), [int(x) for x in g.integers(0, 15, 3)]])
+            recs.append(['P', int(g.integers(1, 900000))])
+        recs = recs[:nmax]
+        raw, tp, tv = build_pack9(recs, box, vz)
+        nparts = np.cumsum([r[0] == 'P' for r in recs])
+
+        def call(n):
+            p, v = pack9.unpack_pack9(raw[:n], box, vz)
+            return {'pos': p, 'vel': v}, (int(nparts[n - 1]) if n else 0)
+    old = numba.get_num_threads()
+    try:
+        # the decoding of the longest input on one thread, checked against the documented layout, is the reference
+        numba.set_num_threads(1)
+        rt.Alloc.set('A')
+        full, nfull = call(nmax)
+        if kern in ('rvint', 'pack9'):
+            q = box / 1e6 if kern == 'rvint' else 0.0005 * box / 3
+            okp = np.abs(np.asarray(full['pos'][:nfull], dtype=np.float64) - tp[:nfull]) <= 0.5 * q + 4e-7 * box
+            okv = np.abs(np.asarray(full['vel'][:nfull], dtype=np.float64) - tv[:nfull]) <= 2e-6 * np.abs(tv[:nfull]) + 1e-3
+            if not (okp.all() and okv.all()):
+                violation(out, 'wrong-values', site, {'records': nmax, 'threads': 1})
+                return out
+        else:
+            t = W.decode_pid(raw, box, ppd)
+            for c in ('pid', 'tagged', 'lagr_idx'):
+                if not np.array_equal(np.asarray(full[c]).astype(np.int64), np.asarray(t[c]).astype(np.int64)):
+                    violation(out, 'wrong-values', site, {'column': c, 'records': nmax, 'threads': 1})
+                    return out
+        numba.set_num_threads(T)
+        for n in sizes:
+            for poison in (('A', 'B') if n % 7 == 0 else ('A',)):
+                rt.Alloc.set(poison)
+                got, cnt = call(n)
+                for c, a in got.items():
+                    a = np.asarray(a)
+                    if len(a) != cnt:
+                        violation(out, 'wrong-row-count', site, {'column': c, 'records': n, 'threads': T, 'rows': len(a), 'expected': cnt})
+                        return out
+                    if a.tobytes() != np.asarray(full[c])[:cnt].tobytes():
+                        bad = np.nonzero((a != np.asarray(full[c])[:cnt]).reshape(cnt, -1).any(axis=1))[0]
+                        violation(out, 'wrong-values', site, {'column': c, 'records': n, 'threads': T,
+                                                              'first_bad_row': int(bad[0]) if len(bad) else None, 'bad_rows': int(len(bad))})
+                        return out
+    finally:
+        numba.set_num_threads(old)
+        rt.Alloc.set('A')
+    bump(out['faults'], 'numba-threads=%d' % T)
+    bump(out['faults'], 'poisoned-allocations', len(sizes))
+    bump(out['probes'], 'decoder-size-sweep:' + kern)
+    out['events'].append(['dsweep', kern, T, d['lo'], d['hi'], d['extra']])
+    out['steps'] = len(sizes)
+    out['nontrivial'] = ['dsweep', kern, T, d['lo']]
+    return out
+
+
 def run(case):
     import asdf
     from e2_world import world as W
     from e2_world import catalog as C
     from simcore import boot
     out = new_outcome()
+    if 'dsweep' in case:
+        return _decoder_sweep(case, out)
     boot.register_asdf_extension()
     from abacusnbody.data.read_abacus import read_asdf
     kind, hdr, knobs = case['kind'], case['header'], case['knobs']
@@ -270,6 +377,15 @@ def run(case):
 
 
 def shrink(case):
+    if 'dsweep' in case:
+        d = case['dsweep']
+        if d['hi'] - d['lo'] > 1:
+            mid = (d['lo'] + d['hi']) // 2
+            yield {'dsweep': dict(d, hi=mid, extra=0)}
+            yield {'dsweep': dict(d, lo=mid, extra=0)}
+        elif d['extra']:
+            yield {'dsweep': dict(d, extra=0)}
+        return
     c = copy.deepcopy(case)
     if len(case['requests']) > 1:
         for i in range(len(case['requests'])):
